@@ -18,5 +18,5 @@ for d in seeded/*/; do
   echo "$n :: [$chk] $r" >> $out
 done
 # leave the generated model in its clean state
-for g in gen_interp gen_interp_multi gen_infer gen_model gen_prob gen_ws gen_config gen_limits gen_toys gen_fit gen_cli gen_exc gen_patchset gen_join gen_xml; do PYTHONPATH=$(pwd):$R/src /venv/bin/python -W ignore -m harness.$g > /dev/null 2>&1; done
+for g in gen_interp gen_interp_multi gen_infer gen_model gen_prob gen_ws gen_config gen_limits gen_toys gen_fit gen_cli gen_exc gen_patchset gen_join gen_xml gen_events; do PYTHONPATH=$(pwd):$R/src /venv/bin/python -W ignore -m harness.$g > /dev/null 2>&1; done
 echo done >> $out
